@@ -37,7 +37,8 @@ func mapE(kv ...*Expr) *Expr {
 
 func fixedPrograms() []*Chunk {
 	return []*Chunk{
-		// finding witnesses: element lvalues read their container too early
+		// witnesses of the element-lvalue defect fixed by commit 798ebe2 (an lvalue with indices used the
+		// container read when the lvalue was evaluated): the check fails again if it returns
 		chunkF(varF("l", list(lits("x", "y", "z")...)),
 			&Form{K: "asg", Sub: "set", LVs: []*LVal{{Name: "l", Idx: lits("0")}, {Name: "l", Idx: lits("1")}}, Args: lits("a", "b")},
 			cmd("put", vr("l"))),
